@@ -262,6 +262,33 @@ def run_pairs(spec, ctx):
     _dedupe(ctx)
 
 
+def run_pairs2(spec, ctx):
+    """two preemptions: A runs k1 steps, B runs k2 steps, A runs to completion, B finishes (thorough tier; strided)"""
+    for debug, (ka, kb) in spec['pairs']:
+        app, alone = setup2() if debug == 'builtin' else setup(debug)
+        na, nb = steps_alone(app, ka), steps_alone(app, kb)
+        for k1 in range(1, na, spec['stride1']):
+            for k2 in range(1, nb, spec['stride2']):
+                case = {'pair': [ka, kb], 'k': k1, 'k2': k2, 'debug': debug}
+                ctx.case(case)
+                s_ = Sched(2)
+                try:
+                    results, errors = s_.run([requester(app, ka), requester(app, kb)], [(0, k1), (1, k2), (0, 1 << 60), (1, 1 << 60)])
+                except Deadlock:
+                    ctx.event('inconclusive-scheduler-stall')
+                    continue
+                ctx.requests += 2
+                try:
+                    if check_results(ctx, [ka, kb], results, errors, alone, 'A=%s runs %d, B=%s runs %d, A finishes, B finishes' % (ka, k1, kb, k2), case):
+                        ctx.nt(case, sample=False)
+                except Exception as e:
+                    ctx.classify_exc(e, case, 'pair')
+                    break
+        ctx.event('double-preemption-pairs')
+    _check_ids(ctx)
+    _dedupe(ctx)
+
+
 def _check_ids(ctx):
     ids = [i for i in IDS if i is not None]
     if len(ids) != len(set(ids)):
@@ -363,6 +390,9 @@ def shards(tier, seed):
     plain += [('builtin', p) for p in PAIRS2]
     out = [{'part': 'pairs', 'pairs': plain[i::n]} for i in range(n)]
     out += [{'part': 'pairs', 'pairs': [p], 'debug_stride': 4 if q else 1} for p in dbg]
+    if not q:
+        for pr in [(False, p) for p in QUICK_PAIRS[:8]] + [('builtin', p) for p in PAIRS2[:4]]:
+            out.append({'part': 'pairs2', 'pairs': [pr], 'stride1': 3, 'stride2': 5})
     out += [{'part': 'sched', 'n': 80 if q else 15000} for _ in range(3)]
     out += [{'part': 'stress', 'seconds': 3 if q else 120} for _ in range(2)]
     return out
@@ -371,6 +401,8 @@ def shards(tier, seed):
 def run_shard(spec, ctx):
     if spec['part'] == 'pairs':
         run_pairs(spec, ctx)
+    elif spec['part'] == 'pairs2':
+        run_pairs2(spec, ctx)
     elif spec['part'] == 'sched':
         ctx.hyp(sched_strategy(), sched_body, spec['n'], kind='sched')
         _check_ids(ctx)
@@ -383,7 +415,8 @@ def replay(case, kind, ctx):
         app, alone = setup2() if case.get('debug') == 'builtin' else setup(case.get('debug', False))
         ka, kb = case['pair']
         s = Sched(2)
-        results, errors = s.run([requester(app, ka), requester(app, kb)], [(0, case['k']), (1, 1 << 60)])
+        sched_ = [(0, case['k']), (1, 1 << 60)] if 'k2' not in case else [(0, case['k']), (1, case['k2']), (0, 1 << 60), (1, 1 << 60)]
+        results, errors = s.run([requester(app, ka), requester(app, kb)], sched_)
         check_results(ctx, [ka, kb], results, errors, alone, 'A=%s preempted after %d steps by B=%s' % (ka, case['k'], kb), case)
     elif isinstance(case, list):
         sched_body(case, ctx)
